@@ -7,6 +7,36 @@ SPEC = os.path.join(core.VERIF, "specs", "HeaderStore")
 DRIVER = os.path.join(core.VERIF, "harness", "overlay", "headerfs", "zz_verif_headerstore_test.go")
 PKG = os.path.join(core.REPO, "headerfs")
 
+READY = True
+PROPERTIES = ["C07", "C08"]
+
+MANIFEST = {
+    "C07": dict(
+        engine="HeaderStore",
+        text="Exhaustive TLC exploration of specs/HeaderStore (two flat files at half-entry granularity, shared "
+             "index bucket, OS descriptor offset) over every history of appends (0..k headers), rollbacks (incl. "
+             "to and past genesis), reopen points and one (quick) or two (thorough) injected write/index errors at "
+             "every durable step; EVERY transition of that graph is replayed against the real headerfs stores "
+             "(real files, real bbolt, faults injected through the File/walletdb.DB interfaces) and the list-refinement, "
+             "reopen and failed-append operators of HeaderStoreProps.tla are evaluated by TLC on the observed traces.",
+        note="Bounded: <=5 ids, <=5 operations, <=2 faults. Trusts TLC, the Go projection of the read API to ids, and "
+             "that I/O errors arrive only through the File / walletdb.DB interfaces. Errors injected into rollbacks are "
+             "not judged (the property only speaks about failed appends).",
+        design="4 C07", technique="TLA+ spec + TLC exhaustive + spec-to-code replay of every transition + TLC-judged observed traces"),
+    "C08": dict(
+        engine="HeaderStore",
+        text="Same specification with a crash allowed at every point between and inside the durable steps of every "
+             "store call (file write torn after every half-entry count, after the file write, between the two steps "
+             "of a rollback, while idle), followed by recovery; every crash transition is replayed on the real stores "
+             "(the fault wrapper performs the torn write on the real file, then kills the call; descriptors are dropped "
+             "and the directory reopened) and RecoverOpens / RecoveredContentLegal / NoTornEntry / FilterNotAhead / "
+             "PostCrashRefinement are evaluated by TLC on what the reopened stores answer.",
+        note="Crash = process death with completed syscalls durable (no power-loss reordering); bbolt commits atomic. "
+             "Multi-store crash points (reorganisation, filter-header batch, import) are covered by the BlockManager / "
+             "Import families where claimed, not by this store-level check.",
+        design="4 C08", technique="TLA+ spec with crash actions + TLC exhaustive + crash-point replay on real files + TLC-judged observed traces"),
+}
+
 PROPS = {
     "C07": ["ListRefinement", "ReopenPreserves", "FailedAppendLeavesStore"],
     "C08": ["RecoverOpens", "RecoveredContentLegal", "NoTornEntry", "FilterNotAhead",
@@ -53,16 +83,20 @@ def run(prop_id, tier, seed, replay=None):
     consts.update(CODE_VERSION)
     sc = core.scratch("hs")
     try:
-        tlc = core.run_tlc([SPEC], "HeaderStore", consts, workers=1, invariants=["TypeOK", "AbsBounded"],
-                           workdir=os.path.join(sc, "tlc"), timeout=3000)
-        if not tlc.ok:
-            raise core.MachineryError("TLC on HeaderStore failed: %s\n%s" % (tlc.error, tlc.stdout_tail[-3000:]))
-        g = core.Graph.load(tlc)
-        paths, unreach = core.edge_cover(g, rng)
-        if tier == "thorough":
-            paths += core.random_walks(g, 2000, 12, rng)
         pf = os.path.join(sc, "paths.ndjson")
-        core.write_paths(g, paths, pf)
+        if replay:
+            family.paths_from_replay(replay, pf)
+            tlc, g, paths, unreach = family._NoTLC(), None, [0], 0
+        else:
+            tlc = core.run_tlc([SPEC], "HeaderStore", consts, workers=1, invariants=["TypeOK", "AbsBounded"],
+                               workdir=os.path.join(sc, "tlc"), timeout=3000)
+            if not tlc.ok:
+                raise core.MachineryError("TLC on HeaderStore failed: %s\n%s" % (tlc.error, tlc.stdout_tail[-3000:]))
+            g = core.Graph.load(tlc)
+            paths, unreach = core.edge_cover(g, rng)
+            if tier == "thorough":
+                paths += core.random_walks(g, 2000, 12, rng)
+            core.write_paths(g, paths, pf)
         binary = family.build_overlay_test(PKG, [DRIVER], os.path.join(sc, "headerfs.test"))
         observed, log = family.run_driver(binary, "TestVerifHeaderStoreReplay", pf,
                                           os.path.join(sc, "obs.ndjson"), sc)
